@@ -128,8 +128,9 @@ func (i *Identifier) TokenLiteral() string { return i.Token.Literal }
 // RawStatement is a Poryscript raw statement. Raw statements are directly
 // included into the target bytecode script.
 type RawStatement struct {
-	Token token.Token
-	Value string
+	Token      token.Token
+	ValueToken token.Token
+	Value      string
 }
 
 func (rs *RawStatement) AllChildren() []Statement {
